@@ -362,3 +362,39 @@ fault("c20-cycle-not-broken", "C20", "R20c", (SERVER, "            if protohandl
 twin("c20-twin-closing", "C20", (GMAP, "        with self.vfs.open(selector, \"rb\") as rfile:", "        import contextlib\n        with contextlib.closing(self.vfs.open(selector, \"rb\")) as rfile:"))
 fault("c20-log-no-class", "C20", "R20d", (GEXC, "    exceptionclass = type(exception).__name__", '    exceptionclass = "Error"'))
 fault("c20-log-no-address", "C20", "R20d", (GEXC, "        ipaddr = protocol.requesthandler.client_address[0]\n", ""))
+
+# ======================================================================= C04
+fault("c04-short-read-exit", "C04", "R04a", (BASE, "                if not len(data):\n                    break", "                if len(data) < 4096:\n                    break"))
+fault("c04-skip-space", "C04", "R04a", (BASE, "                fd.write(data)\n", "                if not data.isspace():\n                    fd.write(data)\n"))
+fault("c04-text-mode", "C04", "R04a", (BASE, '        with self.open(name, "rb") as rfile:', '        with self.open(name, "r") as rfile:'))
+fault("c04-strip", "C04", "R04a", (BASE, "                fd.write(data)\n", "                fd.write(data.replace(b\"\\r\\n\", b\"\\n\"))\n"))
+fault("c04-double-write", "C04", "R04a", (BASE, "                fd.write(data)\n", "                fd.write(data)\n                if len(data) < 10:\n                    fd.write(data)\n"))
+twin("c04-twin-walrus", "C04", (BASE, "            while 1:\n                data = rfile.read(4096)\n                if not len(data):\n                    break\n                fd.write(data)", "            while data := rfile.read(4096):\n                fd.write(data)"))
+twin("c04-twin-not-data", "C04", (BASE, "                if not len(data):\n                    break", "                if not data:\n                    break"))
+twin("c04-twin-blocksize", "C04", (BASE, "rfile.read(4096)", "rfile.read(65536)"))
+fault("c04-d10-tal", "C04", "R04b", (TAL, "            # The size of the template is not the size of the expanded page.\n            self.entry.size = None\n", ""))
+fault("c04-d10-gz", "C04", "R04b", (FILE, "            self.entry.size = None\n", ""))
+fault("c04-d10-menu", "C04", "R04b", (GP, '                if handler.isdir():\n                    # A menu is generated: its length is not known in advance.\n                    self.wfile.write(b"+-2\\r\\n")\n                    self.writedir(self.entry, handler.getdirlist())\n                else:\n                    self.wfile.write(f"+{self.entry.getsize(-2)}\\r\\n".encode())\n                    handler.write(self.wfile)',
+                                     '                self.wfile.write(f"+{self.entry.getsize(-2)}\\r\\n".encode())\n                if handler.isdir():\n                    self.writedir(self.entry, handler.getdirlist())\n                else:\n                    handler.write(self.wfile)'))
+fault("c04-new-transformer", "C04", "R04b", (HTML, "class HTMLFileTitleHandler(FileHandler):\n", "class HTMLFileTitleHandler(FileHandler):\n    def write(self, wfile):\n        with self.vfs.open(self.getselector(), \"rb\") as fp:\n            wfile.write(fp.read().upper())\n\n"))
+fault("c04-size-default-zero", "C04", "R04b", (GP, "self.entry.getsize(-2)", "self.entry.getsize(0)"))
+twin("c04-twin-reset-helper", "C04", (TAL, "            self.entry.size = None\n\n        return self.entry", "            self._forget_size()\n\n        return self.entry\n\n    def _forget_size(self):\n        self.entry.size = None"))
+fault("c04-head-sends-body", "C04", "R04c", (HTTP, '            if self.requestparts[0] == "GET":\n                if handler.isdir():', '            if True:\n                if handler.isdir():'))
+fault("c04-head-icon-body", "C04", "R04c", (HTTP, '                if self.requestparts[0] == "HEAD":\n                    return\n', ""))
+fault("c04-head-fewer-headers", "C04", "R04c", (HTTP, '            self.wfile.write(f"Content-Type: {mimetype}\\r\\n\\r\\n".encode())', '            if self.requestparts[0] == "GET":\n                self.wfile.write(b"Content-Length: 0\\r\\n")\n            self.wfile.write(f"Content-Type: {mimetype}\\r\\n\\r\\n".encode())'))
+twin("c04-twin-not-head", "C04", (HTTP, '            if self.requestparts[0] == "GET":\n                if handler.isdir():', '            if self.requestparts[0] != "HEAD":\n                if handler.isdir():'))
+fault("c04-mime-from-name", "C04", "R04d", (GEM, "            mimetype = self.adjust_mimetype(self.entry.getmimetype())", "            mimetype = self.adjust_mimetype(self.entry.getname())"))
+fault("c04-mime-field-tainted", "C04", "R04d", (HTML, "            entry.setname(title)\n", "            entry.setname(title)\n            entry.setmimetype(title)\n"))
+fault("c04-mime-from-content", "C04", "R04d", (GMAP, "                    entry.name = args[0][1:]\n", "                    entry.name = args[0][1:]\n                    entry.mimetype = args[0][1:]\n"))
+
+# ======================================================================= C15
+fault("c15-info-own-renderer", "C15", "R15a", (GP, 'return "+INFO: " + GopherProtocol.renderobjinfo(self, entry)', 'return "+INFO: " + self.renderobjinfo(entry)'))
+fault("c15-info-prefix", "C15", "R15a", (GP, 'return "+INFO: " + GopherProtocol.renderobjinfo(self, entry)', 'return "+INFO " + GopherProtocol.renderobjinfo(self, entry)'))
+twin("c15-twin-super", "C15", (GP, 'return "+INFO: " + GopherProtocol.renderobjinfo(self, entry)', 'return "+INFO: " + super().renderobjinfo(entry)'))
+fault("c15-missing-renderer", "C15", "R15b", (GP, "    def getadminblock(self, entry):", "    def getadministratorblock(self, entry):"))
+fault("c15-url-renderer-missing", "C15", "R15b", (GP, "    def geturlblock(self, entry):", "    def geturl_block(self, entry):"))
+fault("c15-no-ea-blocks", "C15", "R15b", (GP, '        return ["+INFO", "+ADMIN", "+VIEWS"] + [\n            "+" + x for x in list(entry.geteadict().keys())\n        ]', '        return ["+INFO", "+ADMIN", "+VIEWS"]'))
+fault("c15-length-menu", "C15", "R15c", (GP, '                    self.wfile.write(b"+-2\\r\\n")\n                    self.writedir', '                    self.wfile.write(f"+{self.entry.getsize(-2)}\\r\\n".encode())\n                    self.writedir'))
+fault("c15-no-prefix", "C15", "R15d", (GP, '                        " " + x + "\\r\\n"', '                        x + "\\r\\n"'))
+fault("c15-sidecar-no-rstrip", "C15", "R15e", (GE, '"\\n".join([x.rstrip() for x in rfile.readlines(20480)])', '"".join(rfile.readlines(20480))'))
+fault("c15-sidecar-binary", "C15", "R15e", (GE, '                    selector + extension, "r", errors="surrogateescape"', '                    selector + extension, "rb"'))
